@@ -107,10 +107,19 @@ impl Vm {
     let module = hooks.manage(Module::new(&hooks, module_class, path, id));
     hooks.push_root(module);
 
-    let package = hooks.manage(Package::new(name, module));
+    // only the main module is the root of a package. A module loaded below it must not become
+    // one under its bare name: a file called std would replace the standard library, and
+    // 'import a.b' would load b a second time through the module a
+    let package = if &*name == laythe_core::constants::SELF {
+      Some(hooks.manage(Package::new(name, module)))
+    } else {
+      None
+    };
     hooks.pop_roots(2);
 
-    self.packages.insert(name, package);
+    if let Some(package) = package {
+      self.packages.insert(name, package);
+    }
     module
   }
 
